@@ -21,6 +21,9 @@ import (
 //   clean     no fault: numbered text/binary messages both ways before, during and after the swap
 //   fault     one fault on the CANDIDATE connection only (dialer c0w): refused, stalled past the
 //             upgrade time-out, black-holed, cut at a byte offset of either direction
+//   stream    no fault: a steady stream of numbered messages in both directions across the swap while the
+//             polling and the candidate connection have different latencies (two TCP connections: what
+//             the server sends on the new one can arrive before the response to the last poll request)
 //   coincide  the probe pong is held so that it reaches the client at the very instant its upgrade
 //             time-out fires (reactive fault through the network's write hook)
 // Fixed sweep: cut at byte k of each direction of the candidate connection (fault enumeration over
@@ -30,7 +33,7 @@ func init() {
 	Register(&Property{
 		ID: "C07", Title: "A transport upgrade loses, duplicates and breaks nothing",
 		Level: "fault_enumeration",
-		Modes: []Mode{{Name: "clean", Weight: 4}, {Name: "fault", Weight: 5}, {Name: "coincide", Weight: 2}},
+		Modes: []Mode{{Name: "clean", Weight: 4}, {Name: "fault", Weight: 5}, {Name: "coincide", Weight: 2}, {Name: "stream", Weight: 3}},
 		Gen:   genC07, Run: runC07, Fixed: fixedC07,
 		QuickRuns: 1500, ThoroughRuns: 50000,
 		Rule: "plan = (latency/jitter/chunking, client and server upgrade time-outs, numbered message script for both directions concentrated around the swap, one fault on the candidate connection: refuse | stall | black-hole | cut at byte k of c2s/s2c | pong held until the client's time-out instant (+-delta), stall parameters) from VERIF_SEED, " +
@@ -86,6 +89,31 @@ func genC07(p *sim.Plan, r *sim.Rand, tier string) {
 		// The clean mode keeps them out of reach; the fault modes own them.
 		p.Set("cli_upgrade_ms", 600_000)
 		p.Set("srv_upgrade_ms", 600_000)
+	case "stream":
+		p.Set("cli_upgrade_ms", 600_000)
+		p.Set("srv_upgrade_ms", 600_000)
+		lat := []int64{500, 2000, 35000}[r.Intn(3)]
+		p.Set("lat_us", lat)
+		p.Set("jit_us", lat/int64(r.Range(2, 8)))
+		p.Set("lat_ws_pct", []int64{20, 50, 100, 200}[r.Weighted([]int{3, 3, 1, 1})])
+		p.Set("lat_poll_pct", []int64{100, 150, 300}[r.Intn(3)])
+		p.Ops = nil
+		period := lat * 1000 / int64(r.Range(2, 6))
+		n := int(14 * 2 * lat * 1000 / period)
+		if n > 150 {
+			n = 150
+		}
+		id := int64(1)
+		for who := 0; who < 2; who++ {
+			if who == 0 && r.Bool(0.3) {
+				continue
+			}
+			off := r.I64n(period)
+			for k := 0; k < n; k++ {
+				p.Ops = append(p.Ops, sim.Op{At: off + int64(k)*period, Actor: who, Kind: "msg", I: []int64{id, int64(r.Range(1, 30)), int64(r.Intn(3) / 2)}})
+				id++
+			}
+		}
 	case "fault":
 		switch r.Intn(5) {
 		case 0:
@@ -145,6 +173,9 @@ func fixedC07(tier string, seed uint64) []*sim.Plan {
 func runC07(e *sim.Env) {
 	p := e.Plan
 	cfgNet := world.NetConfigFromPlan(p)
+	if p.C("lat_ws_pct") > 0 {
+		cfgNet.LatPct = map[string]int64{"c0w": p.C("lat_ws_pct"), "c0p": p.C("lat_poll_pct")}
+	}
 	w := world.New(e, cfgNet)
 	cliUp := world.Ms(p.C("cli_upgrade_ms"))
 	es := w.StartEIOServer(&eio.ServerConfig{PingInterval: 25 * time.Second, PingTimeout: 20 * time.Minute, UpgradeTimeout: world.Ms(p.C("srv_upgrade_ms")),
@@ -208,6 +239,8 @@ func runC07(e *sim.Env) {
 		data []byte
 		bin  bool
 		at   int64
+		inv  int
+		ret  int
 	}
 	var all []*sent
 	for _, op := range p.Ops {
@@ -220,13 +253,14 @@ func runC07(e *sim.Env) {
 			e.SleepUntil(base + op.At)
 			pk, _ := eioparser.NewPacket(eioparser.PacketTypeMessage, s.bin, data)
 			s.at = e.Now()
-			iid, _ := e.Invoke(op.Actor, fmt.Sprintf("send #%d %dB", s.id, len(data)))
+			iid, inv := e.Invoke(op.Actor, fmt.Sprintf("send #%d %dB", s.id, len(data)))
+			s.inv = inv
 			if op.Actor == 0 {
 				cli.Socket.Send(pk)
 			} else {
 				srv.Socket.Send(pk)
 			}
-			e.Return(op.Actor, iid, "send")
+			s.ret = e.Return(op.Actor, iid, "send")
 		})
 	}
 	time.Sleep(time.Duration(p.Horizon))
@@ -310,6 +344,43 @@ func runC07(e *sim.Env) {
 			// (a session that switched to a candidate which was then faulted is held to at-most-once:
 			// it may take until the heartbeat to notice)
 			e.Violate("C07/lost", sig, "message #%d (sender %d, sent t=%d) never delivered although the session stayed up; client transport=%s server transport=%s upgradeDone=%d (t=%d)", s.id, s.who, s.at, cliName, srvName, upgradeDone, upgradeAt)
+		}
+	}
+	// order: a message whose Send had returned before another Send of the same side was invoked
+	// arrives first (an upgrade that is invisible to the application does not reorder)
+	for who := 0; who < 2; who++ {
+		recv := spk
+		if who == 1 {
+			recv = cpk
+		}
+		pos := map[string]int{}
+		for i, r := range recv {
+			if _, ok := pos[string(r.Data)]; !ok {
+				pos[string(r.Data)] = i
+			}
+		}
+		var mine []*sent
+		for _, s := range all {
+			if s.who == who && s.ret > 0 {
+				if _, ok := pos[string(s.data)]; ok {
+					mine = append(mine, s)
+				}
+			}
+		}
+		sort.Slice(mine, func(i, j int) bool { return mine[i].inv < mine[j].inv })
+		reported := false
+		for i := 0; i+1 < len(mine) && !reported; i++ {
+			a := mine[i]
+			for _, b := range mine[i+1:] {
+				if a.ret < b.inv {
+					e.Check()
+					if pos[string(b.data)] < pos[string(a.data)] {
+						e.Violate("C07/reordered", sig, "message #%d (sender %d, Send returned at seq %d) was delivered after message #%d (Send invoked at seq %d); client transport=%s server transport=%s upgrade at t=%d", a.id, who, a.ret, b.id, b.inv, cliName, srvName, upgradeAt)
+						reported = true
+					}
+					break // the nearest later message is enough (order is transitive)
+				}
+			}
 		}
 	}
 	known := map[string]bool{}
